@@ -33,7 +33,8 @@ WellFormed(e) == /\ e.outcome \in Vocabulary
 \* boundary symbol denotes for this field (Conc of BoundedReader, re-computed here from the logged len, rem,
 \* orig, width and unit); a prefix input is a proper prefix whose length is what its class says.
 PlanValueOk(e) ==
-  CASE e.arch \in Archetypes /\ e.role # "tag" ->
+  CASE e.arch = "token" -> e.cv = L4(RepCount(e.val, e.rem)) /\ e.len = e.slen      \* rem carries the marker's `max`
+    [] e.arch \in {"chunk", "array", "string"} /\ e.role # "tag" ->
          e.cv = Mask4(Conc(e.val, e.slen, e.rem, e.orig, e.w, e.unit), e.w) /\ e.cv # e.orig /\ e.len = e.slen
     [] e.arch = "prefix" ->
          /\ e.len < e.slen /\ e.cv = L4(e.len)
